@@ -33,6 +33,16 @@ out = {
   'detected_by': det,
   'detected': any(v['exit'] == 1 for v in det.values()),
 }
+# keep hand-written fields of an earlier record (author of red-team changes, analyses, notes, seed sweeps)
+old_meta = os.path.join(dst, 'meta.json')
+if os.path.exists(old_meta):
+    try:
+        old = json.load(open(old_meta))
+        for k in ('author', 'analysis', 'note', 'why_the_check_missed_it_at_the_time', 'detected_with_seeds'):
+            if k in old:
+                out[k] = old[k]
+    except Exception:
+        pass
 if os.path.exists(os.path.join(src, 'patch.orig.diff')):
     out['note'] = 'patch.diff is the sub-agent\'s change re-applied by hand onto /repo HEAD after fix commits touched the same lines; patch.orig.diff is the original against the pinned commit'
     shutil.copy(os.path.join(src, 'patch.orig.diff'), os.path.join(dst, 'patch.orig.diff'))
